@@ -19,7 +19,25 @@ var entryNames = []string{"evidence", "claims-cbor", "claims-json", "p1-unmarsha
 // useClaims: everything the property lists that can be done with a decoded claims-set.
 func useClaims(c psa.IClaims) {
 	_ = c.Validate()
-	_ = getAll(c)
+	for _, g := range getAll(c) {
+		if g.Panic {
+			panic("getter " + g.Name + " panicked")
+		}
+	}
+	// what the component getter hands out is usable: every getter of every component, and the stand-alone validator
+	if comps, err := c.GetSoftwareComponents(); err == nil {
+		for _, sc := range comps {
+			_, _ = sc.GetMeasurementValue()
+			_, _ = sc.GetSignerID()
+			_, _ = sc.GetMeasurementType()
+			_, _ = sc.GetVersion()
+			_, _ = sc.GetMeasurementDesc()
+			_ = sc.Validate()
+		}
+		if len(comps) > 0 {
+			_ = psa.ValidateSwComponents(comps)
+		}
+	}
 	_, _ = psa.EncodeClaimsToCBOR(c)
 	_, _ = psa.EncodeClaimsToJSON(c)
 	_, _ = psa.ValidateAndEncodeClaimsToCBOR(c)
